@@ -41,6 +41,12 @@ def cases(draw, tier="quick"):
     P["kill_awaiting_accept"] = P["cand_kills"] > 0 and draw(st.booleans())
     P["w_kill"] = draw(st.sampled_from([1, 2, 4]))
     P["ping_interval"] = [draw(st.sampled_from([1.0, 5.0, 30.0]))] * 2
+    # how a loss of the connection in use is noticed: by both TCP stacks (in either order), by one of them, or by
+    # nobody (a silent stall that only the Leader's keep-alive can detect)
+    P["kill_notify"] = draw(st.sampled_from(["both", "both", "tape", "tape", "none"]))
+    P["silent_kills"] = P["kill_notify"] != "both"
+    if P["silent_kills"] and P["ping_interval"][0] > 5.0:
+        P["ping_interval"] = [5.0, 5.0]
     P["settle_time"] = 45.0
     P["max_reconnects"] = 8
     ops = [["listen", 0, "p"], ["listen", 1, "p"]]
